@@ -319,6 +319,9 @@ class Schema(dict, metaclass=LogicalMeta):
 
         context = self.__parser__.make_context(force_error=True)
         value = field.parse_value(value, context=context)
+        if unprovided(value):
+            # the invalid value is excluded by the field's on_error policy: keep the current data
+            return
 
         if field.property:
             if callable(setter):
